@@ -11,6 +11,33 @@ def processLine (line : String) : String :=
   match Json.parse line with
   | .error e => s!"BADLINE {e}"
   | .ok j =>
+    if str j "k" == "frontpub" then
+      -- a publish entered through a front end: all items stored exactly as published (route of the selector, one target,
+      -- queued, payload, headers, and the received / due times that were asked for), or nothing at all
+      let tag := s!"case={nat j "case"} via={str j "via"} selector={(obj j "selector").compress} answer={(str j "raw").take 160}"
+      let before := sortMsgs ((arr j "before").map msgOfJson)
+      let after := sortMsgs ((arr j "after").map msgOfJson)
+      let items := arr j "items"
+      if str (obj j "resp") "t" != "count" then
+        (if after == before then "ok" else s!"PROP C15,C02 refused-publish-changed-the-queue {tag}")
+      else if nat (obj j "resp") "changed" != items.length then s!"PROP C15 publish-answered-with-another-count-than-items {tag}"
+      else
+        let bad := items.findSome? fun it =>
+          match after.find? (fun m => m.id == str it "id") with
+          | none => some s!"item {str it "id"} is not in the queue"
+          | some m =>
+            if m.route != str it "route" then some s!"item {m.id}: route {m.route}, published for {str it "route"}"
+            else if m.target != "pull" || m.st != .queued then some s!"item {m.id}: target {m.target} state {repr m.st}"
+            else if m.payload != str it "payload" then some s!"item {m.id}: payload differs"
+            else if m.headers != str it "headers" then some s!"item {m.id}: headers differ"
+            else if int it "recv" != 0 && m.recv != int it "recv" then some s!"item {m.id}: received_at {m.recv}, asked {int it "recv"}"
+            else if int it "next" != 0 && m.next != int it "next" then some s!"item {m.id}: next_run_at {m.next}, asked {int it "next"} (a scheduled message is due at once)"
+            else none
+        let others := before.all (fun b => after.contains b) && after.length == before.length + items.length
+        match bad with
+        | some why => s!"PROP C05,C07,C15 published-message-differs-from-what-was-published {why} {tag}"
+        | none => if others then "ok" else s!"PROP C15,C02 publish-changed-other-messages {tag}"
+    else
     if str j "k" != "front" then "ok" else
     let tag := s!"case={nat j "case"} via={str j "via"} op={(obj j "op").compress} answer={(str j "raw").take 160}"
     let before := sortMsgs ((arr j "before").map msgOfJson)
